@@ -1,5 +1,5 @@
 /* C13 recorder: htp_parse_uri (direct) and a real request line (parsed_uri_raw + numeric port) over prefix families x all
- * suffixes over a 12-symbol alphabet.   fn_uri exh <maxlen> <shard> <nshards>   |   fn_uri rand <seed> <count> */
+ * suffixes over a 12-symbol alphabet.   fn_uri exh <maxlen> <shard> <nshards>   |   fn_uri rand <seed> <count>   |   fn_uri ports */
 #include <stdio.h>
 #include <stdlib.h>
 #include <string.h>
@@ -48,7 +48,7 @@ static void one(const unsigned char *in, size_t len) {
 int main(int argc, char **argv) {
     cfg = htp_config_create();
     htp_config_set_server_personality(cfg, HTP_SERVER_GENERIC);
-    unsigned char in[64];
+    unsigned char in[96];
     if (argc >= 5 && !strcmp(argv[1], "exh")) {
         int maxlen = atoi(argv[2]), shard = atoi(argv[3]), nsh = atoi(argv[4]);
         long idx = 0;
@@ -65,6 +65,21 @@ int main(int argc, char **argv) {
                     one(in, pl + (size_t) len);
                 }
             }
+        }
+    } else if (argc >= 2 && !strcmp(argv[1], "ports")) {
+        /* port texts: boundaries of 1..65535, leading zeros, signs / junk / inner spaces, and digit strings whose value is
+         * p + k * 2^16, 2^31, 2^32, 2^63, 2^64 for small p (a conversion that narrows before the range test wraps into a valid port) */
+        static const char *PT[] = {"0", "1", "9", "10", "80", "65534", "65535", "65536", "65537", "99999", "100000", "000080", "0000000000000000000080", "00000", "+80", "-80", "80a", "a80", "0x50", "8.0",
+                                   "65616", "131071", "131152",                                     /* 2^16 + 80, 2^17 - 1, 2 * 2^16 + 80 */
+                                   "2147483728", "2147483649", "2147483647", "2147483648",             /* around 2^31 */
+                                   "4294967376", "4294967297", "4294967296", "4294967295", "4295032831", "8589934672", "4294967216",   /* around 2^32 */
+                                   "9223372036854775888", "9223372036854775807", "9223372036854775808",  /* around 2^63 */
+                                   "18446744073709551696", "18446744073709551617", "18446744073709551616", "18446744073709551615",  /* around 2^64 */
+                                   "340282366920938463463374607431768211536"};
+        static const char *FR[] = {"http://h:%s/", "//h:%s", "http://[::1]:%s/p?q", "http://u:p@h.example:%s#f", "h:%s"};
+        for (size_t f = 0; f < sizeof FR / sizeof *FR; f++) for (size_t k = 0; k < sizeof PT / sizeof *PT; k++) {
+            int l = snprintf((char *) in, sizeof in, FR[f], PT[k]);
+            if (l > 0 && (size_t) l < sizeof in) one(in, (size_t) l);
         }
     } else if (argc >= 4 && !strcmp(argv[1], "rand")) {
         srand((unsigned) atoi(argv[2]) * 2654435761u + 5);
